@@ -148,7 +148,12 @@ func VerifC01Box(boxType string, n int, large bool, reader bool) {
 	if err != nil {
 		return
 	}
-	vfy.Assert(vfy.DeepEqual(b, b2), "re-decoded structure equals the first")
+	if len(out) == len(in) {
+		// (when a large-size header was normalised to a 32-bit one, the recorded absolute start
+		// positions of nested boxes legitimately shift by 8; the byte-level fixed point below
+		// still applies)
+		vfy.Assert(vfy.DeepEqual(b, b2), "re-decoded structure equals the first")
+	}
 	out2, err := encodeEither(b2, reader)
 	vfy.Assert(err == nil, "second encode succeeds")
 	vfy.Assert(bytes.Equal(out, out2), "second encode gives identical bytes")
